@@ -15,7 +15,7 @@ NOT_APPLICABLE = [
                'testing'},
 ]
 for _p in ('C01', 'C02', 'C06', 'C08', 'C09', 'C10',
-           'C11', 'C14', 'C16', 'C17', 'C19', 'C20'):
+           'C17', 'C19', 'C20'):
     NOT_APPLICABLE.append({
         'property_id': _p,
         'reason': 'not claimed yet: contracts for this property are planned '
